@@ -1,3 +1,4 @@
 SPECIFICATION Spec
 INVARIANT Final
 CHECK_DEADLOCK FALSE
+VIEW TraceView
